@@ -107,6 +107,12 @@ fixed('C07', 'ae9e0eb', 'C07/html/ja/differs/sentence-words',
       'HTML output wrote the sentence line unescaped: a token such as &#0 or <s> became a character reference / markup',
       'depccg/printer/html.py to_mathml', {'word': '&#0'})
 
+fixed('C20', '2f8a9c5', 'C20/ja/reader-raises/plain/ValueError',
+      "the Japanese bank printer rewrote the words -LCB- / -RCB- to '{' / '}', the characters that delimit the format's "
+      "nodes: the printed line could not be read back",
+      'depccg/printer/ja.py ja_of', {'word': '-LCB-', 'line': '{NP[case=nc,mod=nm,fin=f] {/{/_/_}'},
+      ['C20/ja/reader-raises/index/ValueError', 'C20/ja/reader-raises/both/ValueError', 'C07/ja/ja/differs/word'])
+
 open_('C20', 'C20/ptb/round-bracket-at-word-edge',
       "PTB output cannot carry a word that starts with '(' or ends with ')' (e.g. the tokens '(' and ')'): ptb_of prints it "
       "unescaped, read_ptb takes the bracket as structure, and a word containing a round bracket can make a proper prefix "
